@@ -316,7 +316,7 @@ def shrink_case(case, still_fails, max_runs=120):
             return False
 
     cur = copy.deepcopy(case)
-    changed = True
+    changed = cur.get('amodel') is not None
     while changed and runs[0] < max_runs:
         changed = False
         am = cur['amodel']
